@@ -69,6 +69,38 @@ B64Dec(t) ==                                    \* meaning of an allowed text
          ELSE IF q = 1 THEN (v2 % 16) * 16 + v3 \div 4
          ELSE (v3 % 4) * 64 + v4]
 
+(* MIME reading of base64 text (RFC 2045 6.8): characters outside the alphabet (line breaks, white   *)
+(* space, ...) are ignored, the first '=' ends the data, and the padding of the last group may be    *)
+(* missing (2 or 3 characters left over; a single left-over character carries no byte and is not in  *)
+(* the domain).  This is what a decoder must make of wrapped / streamed text, however it is chunked. *)
+B64Skip == {9, 10, 13, 32, 33, 46, 58}                   \* the ignorable characters the generator uses
+B64Data(t) == LET e == SelectInSeq(t, LAMBDA c : c = 61)
+                  body == IF e = 0 THEN t ELSE SubSeq(t, 1, e - 1)
+              IN  SelectSeq(body, LAMBDA c : B64Val(c) >= 0)
+B64LaxDomain(t) ==
+  LET e == SelectInSeq(t, LAMBDA c : c = 61) IN
+  /\ \A i \in 1..Len(t) : B64Val(t[i]) >= 0 \/ t[i] = 61 \/ t[i] \in B64Skip
+  /\ (e > 0 => \A i \in e..Len(t) : t[i] = 61 \/ t[i] \in B64Skip)
+  /\ Len(B64Data(t)) % 4 # 1
+SV(s, i) == IF i <= Len(s) THEN B64Val(s[i]) ELSE 0
+B64DecLax(t) ==
+  LET s == B64Data(t)
+      n == Len(s)
+      r == n % 4
+  IN  [j \in 1..(3 * (n \div 4) + (IF r = 2 THEN 1 ELSE IF r = 3 THEN 2 ELSE 0)) |->
+         LET g == (j - 1) \div 3
+             q == (j - 1) % 3
+         IN  IF q = 0 THEN SV(s, 4 * g + 1) * 4 + SV(s, 4 * g + 2) \div 16
+             ELSE IF q = 1 THEN (SV(s, 4 * g + 2) % 16) * 16 + SV(s, 4 * g + 3) \div 4
+             ELSE (SV(s, 4 * g + 3) % 4) * 64 + SV(s, 4 * g + 4)]
+\* sizes of the fixed internal buffers of the streaming / buffered code paths in the libraries (the runner reads
+\* the actual values from the sources and generates lengths around their multiples; these are the values of the
+\* pinned tree, recorded for the reader): base64-decode reads lcm(76,78) = 2964 characters per step and carries
+\* 1-3 left-over characters into the next buffer; base64-encode reads 3 * 1024 bytes (it used to read 2048) and
+\* writes 4096 characters per step; qp-encode fills a line buffer of max-col = 76; json_read_string starts with a
+\* 128-byte buffer and doubles it.
+StreamBuffers == [b64decode |-> 2964, b64encode |-> 3072, b64encodeOld |-> 2048, qpline |-> 76, jsonstring |-> 128]
+
 (***************************************************************************)
 (* quoted-printable (RFC 2045 section 6.7)                                 *)
 (***************************************************************************)
